@@ -35,6 +35,7 @@ type Exec struct {
 	noOblige int // >0: suppress obligations (used when evaluating assumed contracts)
 	curPos   token.Pos
 	epoch    int
+	quietInv map[string]bool
 }
 
 func NewExec(p *Program, fn *ssa.Function, name string, fs *FuncSpec, c *Case) *Exec {
@@ -74,7 +75,61 @@ func (x *Exec) heap(st *State, key string, s *Sort) *Term {
 
 func (x *Exec) setHeap(st *State, key string, t *Term, obj *Term) {
 	st.Heap[key] = t
+	delete(st.Shapes, key)
 	st.Written[key] = append(st.Written[key], obj)
+}
+
+// shape records that a heap component currently equals store(base, obj, inner).
+type shape struct{ base, obj, inner *Term }
+
+// objGet returns the value of component key for object obj (select simplified through the shape).
+func (x *Exec) objGet(st *State, key string, inner *Sort, obj *Term) *Term {
+	if sh, ok := st.Shapes[key]; ok && sh.obj == obj {
+		return sh.inner
+	}
+	return Select(x.heap(st, key, Arr(IntS, inner)), obj)
+}
+
+// objSet sets the value of component key for object obj.
+func (x *Exec) objSet(st *State, key string, obj, val *Term) {
+	cur := x.heap(st, key, Arr(IntS, val.S))
+	base := cur
+	if sh, ok := st.Shapes[key]; ok && sh.obj == obj {
+		base = sh.base
+	}
+	in := x.VC.Def(key+".in", val)
+	st.Heap[key] = x.VC.Def("H."+key, Store(base, obj, in))
+	st.Shapes[key] = &shape{base: base, obj: obj, inner: in}
+	st.Written[key] = append(st.Written[key], obj)
+	x.recordWrite(st, key, obj, nil, nil)
+}
+
+// writeRec records one write to a heap component (for frame obligations discharged per write).
+type writeRec struct {
+	key          string
+	obj, lo, hi  *Term // lo/hi: absolute element index range [lo,hi) for element arrays; nil = the whole object / cell
+	guard        *Term
+	epoch        int
+	fresh        bool // object allocated in this activation
+}
+
+func (x *Exec) recordWrite(st *State, key string, obj, lo, hi *Term) {
+	if st.noRecord > 0 {
+		return
+	}
+	g := st.G
+	if g == nil {
+		g = True
+	}
+	st.Writes = append(st.Writes, &writeRec{key: key, obj: obj, lo: lo, hi: hi, guard: g, epoch: st.CutEpoch, fresh: st.FreshObjs[obj]})
+}
+
+// objSetRange is objSet for a write that touches only element indices [lo,hi) of the object's inner array.
+func (x *Exec) objSetRange(st *State, key string, obj, val, lo, hi *Term) {
+	st.noRecord++
+	x.objSet(st, key, obj, val)
+	st.noRecord--
+	x.recordWrite(st, key, obj, lo, hi)
 }
 
 func structKey(t types.Type) string {
@@ -87,8 +142,7 @@ func structKey(t types.Type) string {
 // loadComps reads a value of type ty whose components live at key+suffix indexed by obj.
 func (x *Exec) loadField(st *State, owner string, fname string, ty types.Type, obj *Term, guard *Term) Value {
 	v := fromComps(ty, func(suffix string, s *Sort) *Term {
-		h := x.heap(st, owner+"."+fname+suffix, Arr(IntS, s))
-		return x.VC.Def(fname+suffix, Select(h, obj))
+		return x.VC.Def(fname+suffix, x.objGet(st, owner+"."+fname+suffix, s, obj))
 	})
 	x.assumeTypeInv(v, guard, st)
 	return v
@@ -96,9 +150,7 @@ func (x *Exec) loadField(st *State, owner string, fname string, ty types.Type, o
 
 func (x *Exec) storeField(st *State, owner string, fname string, ty types.Type, obj *Term, v Value) bool {
 	return toComps(ty, v, func(suffix string, tm *Term) {
-		key := owner + "." + fname + suffix
-		h := x.heap(st, key, Arr(IntS, tm.S))
-		x.setHeap(st, key, x.VC.Def("H."+fname+suffix, Store(h, obj, tm)), obj)
+		x.objSet(st, owner+"."+fname+suffix, obj, tm)
 	})
 }
 
@@ -106,8 +158,7 @@ func elemKey(elem types.Type) string { return "Elem<" + typeName(elem) + ">" }
 
 func (x *Exec) loadElem(st *State, elem types.Type, arr, idx *Term, guard *Term) Value {
 	v := fromComps(elem, func(suffix string, s *Sort) *Term {
-		h := x.heap(st, elemKey(elem)+suffix, Arr(IntS, Arr(bv64, s)))
-		return x.VC.Def("e"+suffix, Select(Select(h, arr), idx))
+		return x.VC.Def("e"+suffix, Select(x.objGet(st, elemKey(elem)+suffix, Arr(bv64, s), arr), idx))
 	})
 	x.assumeTypeInv(v, guard, st)
 	return v
@@ -116,9 +167,7 @@ func (x *Exec) loadElem(st *State, elem types.Type, arr, idx *Term, guard *Term)
 func (x *Exec) storeElem(st *State, elem types.Type, arr, idx *Term, v Value) bool {
 	return toComps(elem, v, func(suffix string, tm *Term) {
 		key := elemKey(elem) + suffix
-		h := x.heap(st, key, Arr(IntS, Arr(bv64, tm.S)))
-		inner := Store(Select(h, arr), idx, tm)
-		x.setHeap(st, key, x.VC.Def("H.elem"+suffix, Store(h, arr, inner)), arr)
+		x.objSetRange(st, key, arr, Store(x.objGet(st, key, Arr(bv64, tm.S), arr), idx, tm), idx, BVBin("bvadd", idx, BVLit(1, 64)))
 	})
 }
 
@@ -183,6 +232,7 @@ func (x *Exec) assumeRef(r *Term, guard *Term, st *State) {
 // alloc returns a fresh object reference distinct from every existing one.
 func (x *Exec) alloc(st *State, hint string) *Term {
 	r := st.Next
+	st.FreshObjs[r] = true
 	st.Next = x.VC.Def("next", IntBin("+", st.Next, IntLit(1)))
 	_ = hint
 	return r
@@ -591,7 +641,15 @@ func (x *Exec) mergeStates(c *Term, a, b *State) *State {
 			bv = x.heap(b, k, av.S)
 		}
 		if av != bv {
-			n.Heap[k] = x.VC.Def("H."+k, Ite(c, av, bv))
+			sa, sb := a.Shapes[k], b.Shapes[k]
+			if sa != nil && sb != nil && sa.base == sb.base && sa.obj == sb.obj {
+				in := x.VC.Def(k+".in", Ite(c, sa.inner, sb.inner))
+				n.Heap[k] = x.VC.Def("H."+k, Store(sa.base, sa.obj, in))
+				n.Shapes[k] = &shape{base: sa.base, obj: sa.obj, inner: in}
+			} else {
+				n.Heap[k] = x.VC.Def("H."+k, Ite(c, av, bv))
+				delete(n.Shapes, k)
+			}
 		}
 	}
 	for k, av := range a.Cells {
@@ -611,6 +669,21 @@ func (x *Exec) mergeStates(c *Term, a, b *State) *State {
 	}
 	for k, av := range a.Written {
 		n.Written[k] = append(n.Written[k], av...)
+	}
+	haveW := map[*writeRec]bool{}
+	for _, w := range n.Writes {
+		haveW[w] = true
+	}
+	for _, w := range a.Writes {
+		if !haveW[w] {
+			n.Writes = append(n.Writes, w)
+		}
+	}
+	for k := range a.FreshObjs {
+		n.FreshObjs[k] = true
+	}
+	if a.CutEpoch > n.CutEpoch {
+		n.CutEpoch = a.CutEpoch
 	}
 	for k, av := range a.Ghost {
 		if bv, ok := b.Ghost[k]; ok {
@@ -741,6 +814,7 @@ func (x *Exec) execNode(fc *funcCtx, n *node, entry *node, args []Value, binding
 		}
 	}
 	st := n.st
+	st.G = n.guard
 	// ---- loop header of a cut loop ----
 	if l := fc.cutHdr[n.b]; l != nil {
 		x.cutLoopHeader(fc, n, l)
@@ -841,4 +915,16 @@ func (x *Exec) boolOf(v Value) *Term {
 		return s.T
 	}
 	return x.VC.Fresh("unkbool", BoolS)
+}
+
+// PrintLoops lists loop headers and block comments (for writing contracts).
+func PrintLoops(fn *ssa.Function) {
+	for _, l := range findLoops(fn) {
+		fmt.Printf("loop %d: header block %d (%s), %d blocks\n", l.ordinal, l.header.Index, l.header.Comment, len(l.body))
+	}
+	cnt := map[string]int{}
+	for _, b := range fn.Blocks {
+		cnt[b.Comment]++
+		fmt.Printf("block %d: %s#%d\n", b.Index, b.Comment, cnt[b.Comment])
+	}
 }
